@@ -1,5 +1,17 @@
 # Registered checks: property id -> harness files, entries, bounds.  See DESIGN.md section 3.
 SPECS = {
+ "C01": {
+  "explanation": "Full stack on the HDF5 model for 10 numeric element types plus Bool and String: bounded histories of hyperslab writes (offset/count inside, touching and crossing the edge), appends along each axis, extent changes (grow/shrink) and sub-region reads with symbolic element values, compared with a dense reference array after every step and after reopen; reads as other numeric types; calibration polynomial/origin in the exact regime (integer-valued doubles) with raw reads unaffected; kernel checks of applyPolynomial (arbitrary doubles, order-independent facts) and guessChunking.",
+  "bounds": {"quick": {"history_steps": 2, "rank": "1..2", "extent": "<= 3 per axis (4 after append)", "values": "symbolic, full range of the type", "polynomial": "degree <= 2, |coef| < 1024, |x|,|origin| < 256"},
+             "thorough": {"history_steps": 3}},
+  "outside": ["chunked/compressed storage and the on-disk round trip (libhdf5)", "boost::multi_array overloads of Hydra", "ranks > 2, extents > 4", "polynomials on non-integer data (rounding of the evaluation order is not a property)", "value conversion done by the real H5Tconvert"],
+  "assumptions": ["libhdf5 replaced by h5model (hyperslab selection, same-class numeric conversion with clamping, vlen strings, fill value zero/NULL)"],
+  "harnesses": [{"file": "C01_data.cpp", "defines": {"quick": ["-DVH_STEPS=2"], "thorough": ["-DVH_STEPS=3"]},
+     "entries": [{"entry": "vh_c01_rw_" + t, "label": "vh_c01_rw_%s.s%d" % (t, sh), "fix": {"shape": sh}, "tiers": (["quick", "thorough"] if t in ("f64", "i32", "u8") else ["thorough"])}
+                 for t in ("f64", "f32", "i32", "i64", "u8", "u16", "u64", "i8", "i16", "u32") for sh in range(3)]
+              + [{"entry": "vh_c01_polynomial", "label": "vh_c01_polynomial.r0.n%d" % n, "fix": {"regime": 0, "ncoef": n}} for n in range(3)]
+              + [{"entry": "vh_c01_polynomial", "label": "vh_c01_polynomial.r1.n%d.w%d" % (n, w), "fix": {"regime": 1, "ncoef": n, "symcoef": w}, "tiers": (["quick", "thorough"] if n < 3 and w == 0 else ["thorough"])} for n in range(1, 4) for w in range(n)]
+              + [{"entry": e} for e in ("vh_c01_bool_string", "vh_c01_convert", "vh_c01_applypoly_kernel", "vh_c01_chunks")]}]},
  "C15": {
   "explanation": "Full stack on the HDF5 model (compound datasets, member-by-name conversion, vlen strings): a 3-column frame (Int64, String, Double) is driven through bounded histories of rows(n) / writeRow / writeCell(s) / writeColumn(offset,count) with symbolic payloads, and after every step and after reopen all cells are read back through readRow, readCell (by index and name) and readColumn (resize, offset) and compared with a reference table; a second entry covers Bool/Int32/UInt32/UInt64 cells and schema mismatch.",
   "bounds": {"quick": {"history_steps": 2, "rows": "0..3", "columns": 3, "string_bytes": "0..2"}, "thorough": {"history_steps": 3}},
